@@ -758,7 +758,7 @@ func (x *gen) bigMaps() {
 }
 
 func main() {
-	tr.Main("C04: exhaustive histories of up to 3 (quick) / 4 (thorough) Set/Delete/Clear over 3 keys each followed by Len, Keys, String, Get of every key and First/Last/Seek of every target (below, present, between, above) with full Next and Prev sweeps, under cmp.Compare and (one level shallower) under comparators returning arbitrary magnitudes (a-b, 7*(b-a), MinInt/MaxInt); the same battery on Map[string,string] with the empty string as a key and as a value; random histories of up to 60 operations over small and large key spaces under natural, reversed, modular, magnitude (a-b, 3*(a-b), (a-b)<<32, b-a, 7*(b-a), modular differences, MinInt/MaxInt) comparators and on string keys under strings.Compare, reversed, length-difference, byte-difference and first-byte comparators, mixing edits with lookups, Keys, String, iterators in 3 registers (First, Last, Seek, Iter.Seek re-synchronization after edits, Next/Prev steps and sweeps from seek positions), a fifth of the operations through a copy of the Map value; deleting, updating and inserting while iterating with Iter.Seek re-synchronization after every edit; ascending/descending bulk loads to 300 keys; big maps (round 3, macro operations B/D/Q of scale.go): growth order (ascending, descending, outside-in, inside-out, random, ideal breadth-first) x delete order (low end, high end, outside-in, inside-out, ideal breadth-first and its reverse, random, evenly spaced survivors, and - measured through the comparator calls of GetOK on a NewFunc map - shallowest/deepest first by real depth and keeping the deepest root-to-leaf paths) with 2^k-1, 2^k, 2^k+1 keys for k = 8..12 (thorough ..13), shrunk in stages to 1/2, 1/4, the exact size at which the tree below is not yet rebuilt (about 1/8 of the peak) and 1/16, then regrown with new and overwritten keys; after every stage from EVERY key Seek, GetOK/Get, Next and Prev steps, a Next/Prev zig-zag, Iter.Seek of a moved iterator, Seek of the absent key just above, and full First/Next and Last/Prev sweeps folded into digests, plus explicit iterator sessions at both ends, in the middle and at random keys; the zero Map (both key types) with every read operation, Delete, Clear, every iterator constructor and move, and with Set.; round 4: observer; edit; the whole observer set (a lookup, Seek to every target, iterators moved and left behind, Len, Keys, String - then a Set that replaces a value or an equivalent key, a new neighbour, Delete, Delete and Set again, the same Len by another key, Clear, Clear or key-by-key drain and the same keys again - then every observer, each part through the Map or its copy) on int and string maps under plain, magnitude and coarse comparators; a big map drained and a small one after it; every map size 0..600 with the stage at which the tree below is not yet rebuilt; Map[string,string] whose keys and values are empty, only blanks, begin or end with blanks, contain [ ] : blank tab newline NUL no-break space ~ % _ in the first, a middle and the last entry, String() compared byte by byte. Round 5 (K lines, typed.go): omap.New, omap.NewFunc(cmp.Compare), omap.NewFunc of a hand-written total order (and its reverse) and the zero Map at key types float64, float32, a named float64, int8, uint8, int64, uint64 and a named string type, with values int, bool, a 40-byte array, *int, string - keys written as codes: two NaNs of different bits, -Inf, -Max, -5e-324, -0, +0, 5e-324, smallest normal, 0.1, 0.3, 0.1+0.2, 1, nextafter(1), 2^53, 2^53+2, 1e21, Max, +Inf; MinInt64..MaxInt64; 0..MaxUint64 around 2^31, 2^32, 2^63; strings with NUL, blank, 0x7f, 0x80, 0xff, a two-byte rune; the reference order is cmp.Compare's (NaN first and equal to every NaN, -0 equal to +0; the stored key is the one last Set); every ordered pair of keys, the whole alphabet in five orders under every constructor with every observer from every key, random histories; M lines under comparators q<base> that READ the map they belong to (Len, GetOK, Seek+Next, Keys, First/Last+Prev) whenever they are called from a read-only operation. A case is non-trivial when it contains at least one edit and one observation; distinct = distinct input lines.",
+	tr.Main("C04: exhaustive histories of up to 3 (quick) / 4 (thorough) Set/Delete/Clear over 3 keys each followed by Len, Keys, String, Get of every key and First/Last/Seek of every target (below, present, between, above) with full Next and Prev sweeps, under cmp.Compare and (one level shallower) under comparators returning arbitrary magnitudes (a-b, 7*(b-a), MinInt/MaxInt); the same battery on Map[string,string] with the empty string as a key and as a value; random histories of up to 60 operations over small and large key spaces under natural, reversed, modular, magnitude (a-b, 3*(a-b), (a-b)<<32, b-a, 7*(b-a), modular differences, MinInt/MaxInt) comparators and on string keys under strings.Compare, reversed, length-difference, byte-difference and first-byte comparators, mixing edits with lookups, Keys, String, iterators in 3 registers (First, Last, Seek, Iter.Seek re-synchronization after edits, Next/Prev steps and sweeps from seek positions), a fifth of the operations through a copy of the Map value; deleting, updating and inserting while iterating with Iter.Seek re-synchronization after every edit; ascending/descending bulk loads to 300 keys; big maps (round 3, macro operations B/D/Q of scale.go): growth order (ascending, descending, outside-in, inside-out, random, ideal breadth-first) x delete order (low end, high end, outside-in, inside-out, ideal breadth-first and its reverse, random, evenly spaced survivors, and - measured through the comparator calls of GetOK on a NewFunc map - shallowest/deepest first by real depth and keeping the deepest root-to-leaf paths) with 2^k-1, 2^k, 2^k+1 keys for k = 8..12 (thorough ..13), shrunk in stages to 1/2, 1/4, the exact size at which the tree below is not yet rebuilt (about 1/8 of the peak) and 1/16, then regrown with new and overwritten keys; after every stage from EVERY key Seek, GetOK/Get, Next and Prev steps, a Next/Prev zig-zag, Iter.Seek of a moved iterator, Seek of the absent key just above, and full First/Next and Last/Prev sweeps folded into digests, plus explicit iterator sessions at both ends, in the middle and at random keys; the zero Map (both key types) with every read operation, Delete, Clear, every iterator constructor and move, and with Set.; round 4: observer; edit; the whole observer set (a lookup, Seek to every target, iterators moved and left behind, Len, Keys, String - then a Set that replaces a value or an equivalent key, a new neighbour, Delete, Delete and Set again, the same Len by another key, Clear, Clear or key-by-key drain and the same keys again - then every observer, each part through the Map or its copy) on int and string maps under plain, magnitude and coarse comparators; a big map drained and a small one after it; every map size 0..600 with the stage at which the tree below is not yet rebuilt; Map[string,string] whose keys and values are empty, only blanks, begin or end with blanks, contain [ ] : blank tab newline NUL no-break space ~ % _ in the first, a middle and the last entry, String() compared byte by byte. Round 5 (K lines, typed.go): omap.New, omap.NewFunc(cmp.Compare), omap.NewFunc of a hand-written total order (and its reverse) and the zero Map at key types float64, float32, a named float64, int8, uint8, int64, uint64 and a named string type, with values int, bool, a 40-byte array, *int, string - keys written as codes: two NaNs of different bits, -Inf, -Max, -5e-324, -0, +0, 5e-324, smallest normal, 0.1, 0.3, 0.1+0.2, 1, nextafter(1), 2^53, 2^53+2, 1e21, Max, +Inf; MinInt64..MaxInt64; 0..MaxUint64 around 2^31, 2^32, 2^63; strings with NUL, blank, 0x7f, 0x80, 0xff, a two-byte rune; the reference order is cmp.Compare's (NaN first and equal to every NaN, -0 equal to +0; the stored key is the one last Set); every ordered pair of keys, the whole alphabet in five orders under every constructor with every observer from every key, random histories; M lines under comparators q<base> that READ the map they belong to (Len, GetOK, Seek+Next, Keys, First/Last+Prev) whenever they are called from a read-only operation. Round 6 (round6.go): drain sweeps - every peak 0..130 (grown in six orders) drained ONE Delete at a time (lowest key, highest key, a random key; a fifth through the copy) down to the empty map, the probe of every key after every Delete below 41 keys (thorough: after every Delete), a third of them regrown to half and drained again: every count at which the tree below is rebuilt, from every peak; iterators taken by First / Last / Seek while the map was EMPTY (new, cleared, drained key by key, through the copy), kept across Sets and re-synchronized with Iter.Seek at every target, on int and string keys, with the observers before the first edit and after the last. A case is non-trivial when it contains at least one edit and one observation; distinct = distinct input lines.",
 		exec, func(g *tr.G) {
 			x := &gen{g}
 			r := g.R
@@ -835,6 +835,9 @@ func main() {
 					x.g.Emit("M "+[]string{"n", "r", "m5", "a", "x"}[r.Intn(5)]+" z "+strings.Join(ops, ";"), true, tags...)
 				}
 			}
+			// 2c. round 6 (round6.go): iterators taken while the map was empty, kept across Sets, re-synchronized
+			// with Iter.Seek; observers before the first edit and after the last
+			x.emptyIterLines()
 			// 3. random histories, int keys
 			for i := 0; i < g.Scale(9000, 90000); i++ {
 				cmps := "n"
@@ -944,6 +947,8 @@ func main() {
 			// Iter.Seek, Seek of the absent key just above, and full First/Next and Last/Prev sweeps; explicit
 			// iterator sessions at the ends and in the middle
 			x.bigMaps()
+			// 6b. round 6 (round6.go): every peak 0..130 drained one Delete at a time to the empty map
+			x.drainLines()
 			// 7. round 4: observer; edit; the whole observer set (memo.go)
 			x.memoLines()
 			// 8. round 4: keys and values made of blanks, brackets, colons (values.go)
